@@ -338,7 +338,7 @@ def run_case(case, ctx):
 # MANIFEST-BEGIN
 MANIFEST = {
     'technique': 'reference-model monitor on every column of the grid_search result, keyed through the returned parameter table; differential uncoupledness monitor (one row changed, other columns bit-identical)',
-    'level_text': 'For generated circuits, parameter maps (node constants on one or several nodes, edge weights), equal-length and permuted grids, optional white-noise inputs and vectorize on/off, every column of the DataFrame returned by grid_search is compared (1e-7) with the reference trajectory of the circuit parametrised with the values that the returned table assigns to the column label; the table must contain exactly the grid rows, every column must be accounted for, and a second sweep with one row changed must leave the other circuits bit-identical. Grids are given as dicts or as pandas DataFrames with default, shuffled, offset or sorted integer index. Further families: convergent circuits swept over 6-12 rows, circuits with (two-input) edge templates; grids of 8-12 rows; edge keys in the (source, target, index) form that address second / third parallel edges; one inputs dictionary object handed to repeated sweeps (identical results required); probe family: grids with a single row (recorded finding). Sweeps over parameters declared with an integer default (values must arrive as floats). A permutation_ring family sweeps identical units wired one-to-one by a permutation (3-8 rows). Held on observed sweeps only.',
+    'level_text': 'For generated circuits, parameter maps (node constants on one or several nodes, edge weights), equal-length and permuted grids, optional white-noise inputs and vectorize on/off, every column of the DataFrame returned by grid_search is compared (1e-7) with the reference trajectory of the circuit parametrised with the values that the returned table assigns to the column label; the table must contain exactly the grid rows, every column must be accounted for, and a second sweep with one row changed must leave the other circuits bit-identical. Grids are given as dicts or as pandas DataFrames with default, shuffled, offset or sorted integer index. Further families: convergent circuits swept over 6-12 rows, circuits with (two-input) edge templates; grids of 8-12 rows; edge keys in the (source, target, index) form that address second / third parallel edges; one inputs dictionary object handed to repeated sweeps (identical results required); probe family: grids with a single row (recorded finding). Sweeps over parameters declared with an integer default (values must arrive as floats). A permutation_ring family sweeps identical units wired one-to-one by a permutation (3-8 rows). Some plain edges are added to the circuit in place (add_edges_from_matrix / update_template(in_place=True)) before a sweep addresses an original edge. Held on observed sweeps only.',
     'level_note': 'Trusted: vp/ref.py with update_var semantics for the sweep parameters. Circuits of depth <= 1 (grid_search adds one level).',
 }
 # MANIFEST-END
